@@ -150,7 +150,12 @@ func (prophet *Prophet) transitivity(peer bpv7.EndpointID) {
 func (prophet *Prophet) sendMetadata(destination bpv7.EndpointID) {
 	prophet.dataMutex.RLock()
 	source := prophet.c.NodeId
-	metadataBlock := bpv7.NewProphetBlock(prophet.predictabilities)
+	// the block gets its own copy: the bundle is serialised later, without holding the mutex
+	predictabilities := make(map[bpv7.EndpointID]float64, len(prophet.predictabilities))
+	for peer, pred := range prophet.predictabilities {
+		predictabilities[peer] = pred
+	}
+	metadataBlock := bpv7.NewProphetBlock(predictabilities)
 	prophet.dataMutex.RUnlock()
 
 	err := sendMetadataBundle(prophet.c, source, destination, metadataBlock)
@@ -302,6 +307,7 @@ func (prophet *Prophet) SenderForBundle(bp BundleDescriptor) (sender []cla.Conve
 	destination := bndl.PrimaryBlock.Destination
 	sender = make([]cla.ConvergenceSender, 0)
 
+	prophet.dataMutex.RLock()
 	for _, cs := range prophet.c.claManager.Sender() {
 		peerID := cs.GetPeerEndpointID()
 		peerPred := prophet.peerPredictabilities[peerID][destination]
@@ -349,6 +355,7 @@ func (prophet *Prophet) SenderForBundle(bp BundleDescriptor) (sender []cla.Conve
 			}).Debug("Peer is not good forwarding candidate")
 		}
 	}
+	prophet.dataMutex.RUnlock()
 
 	if len(sender) == 0 {
 		log.WithFields(
